@@ -16,7 +16,7 @@ LEVEL_TEXT = ('seeded exploration of object graphs (all reference attributes, sh
               'explicit origin references) x permuted call orders x 1-3 interleaved logical files x write-extend-write histories '
               'x origin reference changed after a write; relational identity / resolution checks on the decoded file')
 LEVEL_NOTE = ('trusted: sim/rp66.py, positional matching of objects within their set (model never predicts copy numbers or origins)')
-TIERS = {'quick': {'cases': 900, 'wall': 45}, 'thorough': {'cases': 200000, 'wall': 840}}
+TIERS = {'quick': {'cases': 2500, 'wall': 45}, 'thorough': {'cases': 200000, 'wall': 840}}
 RULE = ('case = seeded reference-rich specification with permuted add_* order (and 1-3 logical files interleaved), written, optionally '
         'extended / re-originated and written again; non-trivial = origin not first, or repeated names, or >= 2 logical files, or a '
         'second write; distinct = case digest')
